@@ -54,6 +54,33 @@ class C09(ScanCheck):
                     Pk = sc.padd(sc.gmul(h), sc.address(v, Spt, *idx)[0])
                     self.exp[l] = "OK %s %s" % (sc.sc(x).hex(), sc.cp(Pk).hex())
                     cases.append(Case(l, "recover:" + ("primary" if idx == (0, 0) else "one-zero" if 0 in idx else "sub")))
+        # consecutive calls that share all arguments but one (a result remembered under too small a key shows here): same view
+        # key / index / position / transaction key with ANOTHER spend key, another view key, another transaction key, another index
+        def rec(v, s, Kpt, pos, idx, cls):
+            Spt_ = sc.gmul(s)
+            K_ = sc.cp(Kpt)
+            Dv_ = sc.cp(sc.fmul(8, sc.fmul(v, Kpt)))
+            l_ = "recover %s %s %s %d %d %d" % (sc.sc(v).hex(), sc.sc(s).hex(), K_.hex(), pos, idx[0], idx[1])
+            h_ = sc.hs(Dv_ + sc.vi(pos))
+            m_ = 0 if idx == (0, 0) else sc.sub_scalar(v, *idx)
+            Pk_ = sc.padd(sc.gmul(h_), sc.address(v, Spt_, *idx)[0])
+            self.exp[l_] = "OK %s %s" % (sc.sc((h_ + s + m_) % L).hex(), sc.cp(Pk_).hex())
+            cases.append(Case(l_, cls))
+        for _ in range(6 if q else 40):
+            v, s, s2, v2 = sc.rscalar(rng), sc.rscalar(rng), sc.rscalar(rng), sc.rscalar(rng)
+            Kpt, Kpt2 = sc.gmul(sc.rscalar(rng)), sc.gmul(sc.rscalar(rng))
+            idx = rng.choice([(0, 1), (1, 0), (2, 3), (0, 0)])
+            pos = rng.choice([0, 1, 2, 200])
+            rec(v, s, Kpt, pos, idx, "recover:shared-args")
+            rec(v, s2, Kpt, pos, idx, "recover:shared-args/other-spend-key")
+            rec(v, s, Kpt, pos, idx, "recover:shared-args")
+            rec(v2, s, Kpt, pos, idx, "recover:shared-args/other-view-key")
+            rec(v, s, Kpt, pos, idx, "recover:shared-args")
+            rec(v, s, Kpt2, pos, idx, "recover:shared-args/other-tx-key")
+            rec(v, s, Kpt, pos, idx, "recover:shared-args")
+            rec(v, s, Kpt, pos + 1, idx, "recover:shared-args/other-position")
+            rec(v, s, Kpt, pos, (idx[0], idx[1] + 1), "recover:shared-args/other-index")
+            rec(v, s, Kpt, pos, idx, "recover:shared-args")
         # transaction keys with a small-order component: K = r*G + T for each non-trivial torsion point T.  The derivation is
         # 8*(v*K), so the recovered key must be the one for the torsion-free key r*G (C10); a recoverer that folds the cofactor
         # into the scalar disagrees with the scanner here
